@@ -181,8 +181,11 @@ impl Prop for C06 {
     }
     fn strategy(tier: Tier) -> BoxedStrategy<Case> {
         let max_entries = tier.pick(12usize, 120);
+        let many = tier.pick(1500usize, 6000);
         (any::<bool>(), any::<bool>()).prop_flat_map(move |(unicode, big_endian)| {
-            let msg = move || if unicode { prop_oneof![4 => unicode_string(12), 1 => unicode_string(40)].boxed() } else { prop_oneof![4 => sjis_string(12), 1 => sjis_string(40)].boxed() };
+            // mostly short messages; 1 in 250 is a short message repeated into thousands of code units
+            let long = move |s: BoxedStrategy<String>| (s, 40usize..400).prop_map(|(m, k)| m.repeat(k)).boxed();
+            let msg = move || if unicode { prop_oneof![200 => unicode_string(12), 49 => unicode_string(40), 1 => long(unicode_string(24))].boxed() } else { prop_oneof![200 => sjis_string(12), 49 => sjis_string(40), 1 => long(sjis_string(24))].boxed() };
             let edit = prop_oneof![
                 2 => sjis_string(10).prop_map(Edit::SetTitle),
                 3 => any::<u16>().prop_map(Edit::Delete),
@@ -191,14 +194,26 @@ impl Prop for C06 {
             ];
             (
                 sjis_string(10),
-                prop_oneof![1 => Just(0usize), 8 => 0..=max_entries.min(12), 1 => 0..=max_entries].prop_flat_map(move |n| proptest::collection::vec((key_strategy(), msg()), n)),
+                // 1 in 100: hundreds to thousands of entries (label and pointer tables beyond 8-bit counts, text beyond 64 KiB)
+                prop_oneof![10 => Just(0usize), 80 => 0..=max_entries.min(12), 9 => 0..=max_entries, 1 => 300..=many].prop_flat_map(move |n| proptest::collection::vec((key_strategy(), msg()), n)),
                 proptest::collection::vec(edit, 0..4),
+                // 1 case in 4: some keys carry byte-identical messages (copied from another entry)
+                prop_oneof![3 => Just(Vec::new()), 1 => proptest::collection::vec((any::<u16>(), any::<u16>()), 1..4)],
             )
-                .prop_map(move |(title, raw, edits)| {
+                .prop_map(move |(title, raw, edits, copies)| {
                     let mut entries: Vec<(String, String)> = Vec::new();
+                    let mut seen = std::collections::HashSet::new();
                     for (k, m) in raw {
-                        if !entries.iter().any(|(k2, _)| *k2 == k) {
+                        if seen.insert(k.clone()) {
                             entries.push((k, m));
+                        }
+                    }
+                    for (a, b) in copies {
+                        if entries.len() >= 2 {
+                            let (i, j) = ((a as usize * entries.len()) >> 16, (b as usize * entries.len()) >> 16);
+                            if i != j {
+                                entries[j].1 = entries[i].1.clone();
+                            }
                         }
                     }
                     Case { unicode, big_endian, title, entries, edits }
@@ -267,6 +282,21 @@ impl Prop for C06 {
             (false, true) => "ShiftJIS/BE",
         });
         cx.label_if(m.entries.is_empty(), "empty-archive");
+        cx.label_if(case.entries.len() > 255, ">255-entries");
+        {
+            let mut seen = std::collections::HashSet::new();
+            let (mut dup, mut dup_long) = (false, false);
+            for (_, v) in &case.entries {
+                if !seen.insert(v.as_str()) {
+                    dup = true;
+                    dup_long |= v.len() >= 48;
+                }
+            }
+            cx.label_if(dup, "two-keys-with-identical-messages");
+            cx.label_if(dup_long, "two-keys-with-identical-messages>=48-bytes");
+        }
+        cx.label_if(case.entries.iter().any(|(_, v)| v.len() > 2000), "message>2000-bytes");
+        cx.label_if(case.entries.iter().map(|(_, v)| v.len()).sum::<usize>() > 65_536, "text>64KiB");
         cx.label_if(has_empty, "empty-message");
         cx.label_if(has_special, "astral/BOM-like/zero-byte-unit");
         cx.label_if(case.unicode && m.entries.iter().any(|(_, v)| v.starts_with('\u{FEFF}') || v.starts_with('\u{FFFE}') || v.starts_with('\u{BBEF}')), "BOM-like-first-char");
